@@ -2,12 +2,15 @@
 // Functions under check (the real ones): `TryFrom<Config> for frame::Settings`,
 // `From<&frame::Settings> for config::Settings`, `Default for Settings/Config`, the server builder's
 // setters (h3/src/server/builder.rs), and — through them — `frame::Settings::{insert,get,encode}`,
-// `UniStreamHeader::encode`, `WriteBuf::from(UniStreamHeader)` (h3/src/stream.rs).
+// `UniStreamHeader::encode` (h3/src/stream.rs; the body of `WriteBuf::from(UniStreamHeader)`).
 use super::*;
 #[path = "/verif/kani/_spec.rs"]
 mod spec;
-use crate::stream::{UniStreamHeader, WriteBuf};
-use bytes::Buf;
+#[path = "/verif/kani/_putsink.rs"]
+mod putsink;
+use crate::proto::coding::Encode;
+use crate::stream::UniStreamHeader;
+use putsink::PutSink;
 use spec::*;
 
 /// `fastrand::u64` replacement (un-stubbed fastrand is a Kani internal compiler error): any value of the range
@@ -78,9 +81,16 @@ fn c13_config_conversion_total() {
     kani::cover!(!cfg.send_grease && cfg.settings.enable_webtransport && !cfg.settings.enable_datagram);
 }
 
-/// What the peer reads on h3's control stream for `cfg` — the bytes `send_control_stream_headers` hands to
-/// the transport (`WriteBuf::from(UniStreamHeader::Control(settings))`) — parsed by the independent
-/// SETTINGS parser of the spec library.
+/// What h3 hands to the transport on its control stream for `cfg`: the real
+/// `UniStreamHeader::Control(settings).encode(..)` (stream type, then `Settings::encode`) — the call
+/// `WriteBuf::from(UniStreamHeader::Control(_))` makes — run against the recording sink
+/// (/verif/kani/_putsink.rs): the sequence of varints must be, one by one in shortest form,
+///   0x00 | 0x04 | L | [grease id, 0] | 0x06, max_field_section_size | 0x08, b | 0x2b603742, b | 0x33, b |
+///   0x2b603743, max_webtransport_sessions
+/// with L == the number of bytes after it, the whole image <= 64 bytes (WRITE_BUF_ENCODE_SIZE), no
+/// identifier twice, none HTTP/2-reserved.  (The real 64-byte `&mut [u8]` of WriteBuf with ~14 varints at
+/// symbolic offsets ran out of memory — 25 GB — so the byte-level image is the sink's; `WriteBuf`'s own
+/// three lines are C14's harnesses.)
 fn check_wire(cfg: Config) {
     let settings = match frame::Settings::try_from(cfg) {
         Ok(s) => s,
@@ -89,47 +99,56 @@ fn check_wire(cfg: Config) {
             return;
         }
     };
-    let w: WriteBuf<&[u8]> = WriteBuf::from(UniStreamHeader::Control(settings));
-    let n = w.remaining();
-    let bytes = w.chunk();
-    assert!(bytes.len() == n); // the whole header is one chunk; a SETTINGS frame has no separate payload
-    assert!(n <= 64); // fits WRITE_BUF_ENCODE_SIZE (a larger image would already have panicked in `put_*`)
-    assert!(bytes[0] == 0x00); // RFC 9114 §6.2.1: control stream type
-    match spec_settings_frame_dec(&bytes[1..]) {
-        None => {
-            assert!(false);
-        }
-        Some((p, total, hdr_minimal)) => {
-            assert!(total == n - 1); // exactly one frame, Length exact, nothing after it
-            assert!(hdr_minimal && p.minimal);
-            let g: usize = if cfg.send_grease { 1 } else { 0 };
-            assert!(p.n == 5 + g);
-            if cfg.send_grease {
-                // RFC 9114 §7.2.4.1 grease setting first
-                assert!(spec_is_grease(p.pairs[0].0));
-                assert!(p.pairs[0].1 == 0);
+    let mut sink = PutSink::new();
+    UniStreamHeader::Control(settings).encode(&mut sink);
+
+    let g: usize = if cfg.send_grease { 1 } else { 0 };
+    assert!(sink.n == 3 + 2 * (5 + g));
+    // expected (identifier, value) list, from the configuration
+    let mut want = [(0u64, 0u64); 6];
+    if cfg.send_grease {
+        // identifier chosen by h3: read it back from the image and judge it
+        let gid = spec_varint_dec(&sink.slot[3].0[..sink.slot[3].1]);
+        match gid {
+            Some((id, used)) => {
+                assert!(used == sink.slot[3].1);
+                assert!(spec_is_grease(id)); // RFC 9114 §7.2.4.1: 0x1f * N + 0x21
+                want[0] = (id, 0);
             }
-            // exactly the configured values
-            assert!(p.pairs[g] == (SPEC_SETTINGS_MAX_FIELD_SECTION_SIZE, cfg.settings.max_field_section_size));
-            assert!(p.pairs[g + 1] == (SPEC_SETTINGS_ENABLE_CONNECT_PROTOCOL, b2u(cfg.settings.enable_extended_connect)));
-            assert!(p.pairs[g + 2] == (SPEC_SETTINGS_ENABLE_WEBTRANSPORT, b2u(cfg.settings.enable_webtransport)));
-            assert!(p.pairs[g + 3] == (SPEC_SETTINGS_H3_DATAGRAM, b2u(cfg.settings.enable_datagram)));
-            assert!(p.pairs[g + 4] == (SPEC_SETTINGS_WEBTRANSPORT_MAX_SESSIONS, cfg.settings.max_webtransport_sessions));
-            // no identifier twice, never an HTTP/2-reserved one (judged on the parsed bytes)
-            let mut i = 0;
-            while i < 6 {
-                if i < p.n {
-                    assert!(!spec_is_h2_reserved_setting(p.pairs[i].0));
-                    let mut j = 0;
-                    while j < i {
-                        assert!(p.pairs[j].0 != p.pairs[i].0);
-                        j += 1;
-                    }
-                }
-                i += 1;
+            None => {
+                assert!(false);
             }
         }
     }
+    want[g] = (SPEC_SETTINGS_MAX_FIELD_SECTION_SIZE, cfg.settings.max_field_section_size);
+    want[g + 1] = (SPEC_SETTINGS_ENABLE_CONNECT_PROTOCOL, b2u(cfg.settings.enable_extended_connect));
+    want[g + 2] = (SPEC_SETTINGS_ENABLE_WEBTRANSPORT, b2u(cfg.settings.enable_webtransport));
+    want[g + 3] = (SPEC_SETTINGS_H3_DATAGRAM, b2u(cfg.settings.enable_datagram));
+    want[g + 4] = (SPEC_SETTINGS_WEBTRANSPORT_MAX_SESSIONS, cfg.settings.max_webtransport_sessions);
+
+    assert!(sink.slot[0] == spec_varint_enc(SPEC_ST_CONTROL)); // RFC 9114 §6.2.1
+    assert!(sink.slot[1] == spec_varint_enc(SPEC_FT_SETTINGS)); // RFC 9114 §7.2.4
+    let mut payload = 0usize;
+    let mut i = 0;
+    while i < 6 {
+        if i < 5 + g {
+            let (id, v) = want[i];
+            assert!(sink.slot[3 + 2 * i] == spec_varint_enc(id));
+            assert!(sink.slot[4 + 2 * i] == spec_varint_enc(v));
+            payload += sink.slot[3 + 2 * i].1 + sink.slot[4 + 2 * i].1;
+            // never an HTTP/2-reserved identifier, no identifier twice
+            assert!(!spec_is_h2_reserved_setting(id));
+            let mut j = 0;
+            while j < i {
+                assert!(want[j].0 != id);
+                j += 1;
+            }
+        }
+        i += 1;
+    }
+    assert!(sink.slot[2] == spec_varint_enc(payload as u64)); // Length == bytes that follow
+    let total = 1 + 1 + sink.slot[2].1 + payload;
+    assert!(total <= 64); // StreamType::MAX_ENCODED_SIZE + Frame::MAX_ENCODED_SIZE = WRITE_BUF_ENCODE_SIZE
 }
 
 // vp: props=C13,C14,C06; tag=C13.config.wire; kind=complete; tier=thorough
@@ -165,7 +184,7 @@ fn c13_config_wire_grease() {
 // vp: props=C13,C06; tag=C13.setup.nopanic.server; kind=complete; tier=quick
 // "For every configuration the server builder accepts, connection setup completes without panicking":
 // every argument of every public setter symbolic (both sizes over ALL of u64), then the setup path of
-// `ConnectionInner::send_control_stream_headers` (conversion + `WriteBuf::from(Control(settings))`).
+// `ConnectionInner::send_control_stream_headers` (conversion + encoding of the control stream header).
 // The builder either keeps the value or, if it is not representable as a varint, stores the largest
 // representable one; what it stores is what is sent (c13_config_wire_*).
 #[kani::proof]
@@ -197,9 +216,9 @@ fn c13_server_builder_setup_no_panic() {
             assert!(false);
         }
         Ok(settings) => {
-            let w: WriteBuf<&[u8]> = WriteBuf::from(UniStreamHeader::Control(settings));
-            assert!(w.remaining() >= 2 + 5 * 2);
-            assert!(w.chunk()[0] == 0x00 && w.chunk()[1] == 0x04);
+            let mut sink = PutSink::new();
+            UniStreamHeader::Control(settings).encode(&mut sink); // must not panic
+            assert!(sink.n >= 3 + 10);
         }
     }
     kani::cover!(mfs == 0 && wts == 1 && g);
